@@ -1,4 +1,5 @@
 import Arc.Model.C01.Bytes
+import Arc.Generated.C01
 /-
 C01 — byte-level model of arc's line-protocol ingest path
 (`internal/ingest/lineprotocol.go`: parseBatchInternal, parseLineWithPrecision, splitOnDelimiter,
@@ -8,8 +9,10 @@ parseMeasurementTags, parseFields, parseFieldValue, unescape, the precision arm,
 Quirks are modelled as they are in the code:
 * every `"` toggles quote mode in `splitOnDelimiter`, also in the measurement/tag section;
 * a backslash skips the next byte in `splitOnDelimiter`, whatever that byte is;
-* key/value components are cut at the FIRST `=` (escape-unaware `bytes.IndexByte`);
-* `unescape` rewrites `\,` `\ ` `\=` `\"` `\\` in every context;
+* key/value components are cut at the first `=`: escape-unaware (`bytes.IndexByte`) or escape-aware
+  (`indexUnescaped`) according to the regenerated fact `Generated.C01.kvCutEscapeAware`;
+* `unescape` rewrites the escapes of `Generated.C01.unescapeSet` (today `\,` `\ ` `\=` `\"` `\\`) in names;
+  quoted string values use `Generated.C01.stringUnescapeSet` (the same set, or only `\"` `\\`);
 * ns precision divides with Go's truncating `/`; ms/s fall back to *now* outside the overflow guard;
 * Go maps are modelled as association lists (insertion order, last write wins); the driver sorts.
 
@@ -44,13 +47,38 @@ def splitOn (delim : UInt8) (data : Bytes) : List Bytes :=
 
 /-! ## unescape -/
 
-/-- the `case ',', ' ', '=', '"', '\\'` of `unescape`'s switch (tied to the source by factgen). -/
-def isEsc (b : UInt8) : Bool := b == cCM || b == cSP || b == cEQ || b == cDQ || b == cBS
+/-- the `case` list of `unescape`'s switch, regenerated from the source -/
+def isEsc (b : UInt8) : Bool := Arc.Generated.C01.unescapeSet.contains b.toNat
 
-def unescape : Bytes → Bytes
+/-- the escape set applied inside quoted string field values (regenerated) -/
+def isEscStr (b : UInt8) : Bool := Arc.Generated.C01.stringUnescapeSet.contains b.toNat
+
+def unescapeBy (esc : UInt8 → Bool) : Bytes → Bytes
   | [] => []
   | [b] => [b]
-  | b :: c :: r => if b = cBS ∧ isEsc c = true then c :: unescape r else b :: unescape (c :: r)
+  | b :: c :: r => if b = cBS ∧ esc c = true then c :: unescapeBy esc r else b :: unescapeBy esc (c :: r)
+
+def unescape : Bytes → Bytes := unescapeBy isEsc
+
+def unescapeStr : Bytes → Bytes := unescapeBy isEscStr
+
+/-- `indexUnescaped(b, d)` + slicing: the first `d` not consumed by a preceding backslash -/
+def cutAtEsc (d : UInt8) : Bytes → Option (Bytes × Bytes)
+  | [] => none
+  | [b] => if b = d then some ([], []) else none
+  | b :: c :: r =>
+    if b = cBS then
+      match cutAtEsc d r with
+      | some (k, v) => some (b :: c :: k, v)
+      | none => none
+    else if b = d then some ([], c :: r)
+    else match cutAtEsc d (c :: r) with
+      | some (k, v) => some (b :: k, v)
+      | none => none
+
+/-- the key/value cut of parseMeasurementTags / parseFields as the current source does it -/
+def cutKV (comp : Bytes) : Option (Bytes × Bytes) :=
+  if Arc.Generated.C01.kvCutEscapeAware = true then cutAtEsc cEQ comp else cutAt cEQ comp
 
 /-! ## maps as association lists -/
 
@@ -64,7 +92,7 @@ def AMap.has {V : Type} (m : AMap V) (k : Bytes) : Bool := m.any (fun p => p.1 =
 /-! ## parseMeasurementTags -/
 
 def addTag (m : AMap Bytes) (comp : Bytes) : AMap Bytes :=
-  match cutAt cEQ comp with
+  match cutKV comp with
   | some (k, v) => if k.isEmpty then m else m.set (unescape k) (unescape v)
   | none => m
 
@@ -118,7 +146,7 @@ def parseFieldValue (pf : Bytes → Option UInt64) (valid : Bool) (value : Bytes
     | none =>
       if c0 = cDQ then
         if v.length > 1 ∧ v.getLast? = some cDQ then
-          some (.str (san valid (unescape ((v.drop 1).dropLast))))
+          some (.str (san valid (unescapeStr ((v.drop 1).dropLast))))
         else some (.str (san valid (trimQuotes v)))
       else if v.getLast? = some 105 then         -- 'i'
         (parseInt64 v.dropLast).map .i64
@@ -129,7 +157,7 @@ def parseFieldValue (pf : Bytes → Option UInt64) (valid : Bool) (value : Bytes
 /-! ## parseFields -/
 
 def addField (pf : Bytes → Option UInt64) (valid : Bool) (m : AMap GoVal) (comp : Bytes) : AMap GoVal :=
-  match cutAt cEQ comp with
+  match cutKV comp with
   | some (k, v) =>
     if k.isEmpty then m else
     match parseFieldValue pf valid v with
